@@ -21,11 +21,46 @@ import (
 // under one of the allowed prefixes (the chosen destination).
 type fsbox struct {
 	Root string
+	// dirty: the tree may differ from the pristine one; pristine is the
+	// snapshot taken right after the last reset.
+	dirty    bool
+	pristine snapshot
+}
+
+// clean makes the tree pristine again. A case that provably left the tree
+// untouched (empty before/after diff, nothing planted) needs no work.
+func (b *fsbox) clean() error {
+	if !b.dirty && b.pristine != nil {
+		return nil
+	}
+	if err := b.reset(); err != nil {
+		return err
+	}
+	s, err := snap(b.Root)
+	if err != nil {
+		return err
+	}
+	b.pristine, b.dirty = s, false
+	return nil
 }
 
 const secretContent = "SECRET: outside\n"
 
-func boxBase() string { return "/var/tmp/vc16/box" }
+// boxBase: the scratch trees live on tmpfs when there is one (a box is wiped and
+// rebuilt for every case; on the ext4 root disk that costs 5 ms per case, on
+// tmpfs 0.1 ms). VERIF_C16_BOX overrides; /var/tmp/vc16/box is the fallback.
+func boxBase() string {
+	if d := os.Getenv("VERIF_C16_BOX"); d != "" {
+		return d
+	}
+	if fi, err := os.Stat("/dev/shm"); err == nil && fi.IsDir() {
+		d := "/dev/shm/vc16-box"
+		if err := os.MkdirAll(d, 0o755); err == nil {
+			return d
+		}
+	}
+	return "/var/tmp/vc16/box"
+}
 
 func newBox(tag string) (*fsbox, error) {
 	root := filepath.Join(boxBase(), fmt.Sprintf("%d-%s", os.Getpid(), tag))
